@@ -222,7 +222,14 @@ def _run_isolated(args, jobs, timeout):
                     proc.join(5)
                     done = (f"#{i}", None, "error", f"self-test worker died (exit code {proc.exitcode})")
             elif not proc.is_alive():
-                done = (f"#{i}", None, "error", f"self-test worker died (exit code {proc.exitcode})")
+                # the child may have sent its result and exited between the poll above and this test
+                if r.poll(0.2):
+                    try:
+                        done = r.recv()
+                    except (EOFError, OSError):
+                        done = None
+                if done is None:
+                    done = (f"#{i}", None, "error", f"self-test worker died (exit code {proc.exitcode})")
             elif time.time() - t0 > timeout:
                 proc.kill()
                 done = (f"#{i}", None, "error", f"self-test worker exceeded {timeout}s")
